@@ -76,7 +76,10 @@ pub trait ArenaExt<'ast>: Sized + Copy {
         field_symbols: &[TypedIdent<Symbol>],
         packed_expr: SpannedExpr<'ast, Symbol>,
         action: &mut dyn FnMut(&Symbol) -> SpannedExpr<'ast, Symbol>,
-    ) -> SpannedExpr<'ast, Symbol> {
+    ) -> Result<SpannedExpr<'ast, Symbol>, Error> {
+        let first_field = field_symbols.first().ok_or_else(|| {
+            Error::message("Unable to derive this trait for a record without fields")
+        })?;
         let pack_record = pos::spanned(
             span,
             Expr::Lambda(Lambda {
@@ -95,14 +98,14 @@ pub trait ArenaExt<'ast>: Sized + Copy {
             symbols.simple_symbol("map"),
             vec![
                 self.paren(span, pack_record),
-                self.paren(span, action(&field_symbols.first().expect("FIXME").name)),
+                self.paren(span, action(&first_field.name)),
             ],
         );
 
-        field_symbols.iter().skip(1).fold(map_expr, |prev, symbol| {
+        Ok(field_symbols.iter().skip(1).fold(map_expr, |prev, symbol| {
             let deserialize_field = action(&symbol.name);
             self.infix(span, prev, symbols.simple_symbol("<*>"), deserialize_field)
-        })
+        }))
     }
 
     fn generate_record_pattern<I>(
